@@ -152,17 +152,18 @@ def has_nonscalar(doc):
 
 
 def sibling_keys(nodes):
-    return [n["k"] for n in nodes if n["n"] in ("a", "b")]
+    """keys the dict converters assign at one level: Assignment, Block and (since fix ea3edea) Section names"""
+    return [n["k"] for n in nodes if n["n"] in ("a", "b", "s")]
 
 
 def has_duplicate_siblings(doc):
-    """Duplicate keys among the Assignment/Block siblings of one level reachable through blocks (the levels the
-    dict converters visit); at top level META counts as a sibling when the document has a META block."""
+    """Duplicate keys among the Assignment/Block/Section siblings of one level (every level: the dict converters
+    visit blocks and sections); at top level META counts as a sibling when the document has a META block."""
     top = sibling_keys(doc["sections"]) + (["META"] if doc["meta"] else [])
     if len(set(top)) != len(top):
         return True
-    for n in walk_nodes(doc["sections"], through_sections=False):
-        if n["n"] == "b":
+    for n in walk_nodes(doc["sections"]):
+        if n["n"] in ("b", "s"):
             ks = sibling_keys(n["c"])
             if len(set(ks)) != len(ks):
                 return True
@@ -170,12 +171,12 @@ def has_duplicate_siblings(doc):
 
 
 def has_assign_after_block(doc):
-    """Some Block (reachable through blocks) has an Assignment child positioned after a Block child."""
-    for n in walk_nodes(doc["sections"], through_sections=False):
-        if n["n"] == "b":
+    """Some Block / Section has an Assignment child positioned after a Block / Section child."""
+    for n in walk_nodes(doc["sections"]):
+        if n["n"] in ("b", "s"):
             seen_block = False
             for c in n["c"]:
-                if c["n"] == "b":
+                if c["n"] in ("b", "s"):
                     seen_block = True
                 elif c["n"] == "a" and seen_block:
                     return True
@@ -680,37 +681,23 @@ def text_safe(doc):
 # ---------------------------------------------------------------------------------------------
 # known-deviation adjustments (what a rendering is expected to contain *given* an open finding)
 # ---------------------------------------------------------------------------------------------
-def drop_sections(doc):
-    """F24: the dict / markdown converters skip Section nodes (top level and inside blocks)."""
-    def rec(nodes):
-        out = []
-        for n in nodes:
-            if n["n"] == "s":
-                continue
-            if n["n"] == "b":
-                n = {**n, "c": rec(n["c"])}
-            out.append(n)
-        return out
-    return {**doc, "sections": rec(doc["sections"])}
-
-
 def collapse_duplicates(doc):
     """F25: a Python dict keeps one entry per key: first position, last value."""
     def rec(nodes):
         order, last = [], {}
         for n in nodes:
-            if n["n"] in ("a", "b"):
+            if n["n"] in ("a", "b", "s"):
                 if n["k"] not in last:
                     order.append(n["k"])
                 last[n["k"]] = n
         out = []
         for k in order:
             n = last[k]
-            if n["n"] == "b":
+            if n["n"] in ("b", "s"):
                 n = {**n, "c": rec(n["c"])}
             out.append(n)
         return out
-    secs = rec([n for n in doc["sections"] if n["n"] in ("a", "b")])
+    secs = rec(doc["sections"])
     meta = doc["meta"]
     if meta and any(n["k"] == "META" for n in secs):
         meta = []          # result["META"] is overwritten by the top-level node keyed META
